@@ -29,8 +29,9 @@ Every write goes to the same path.  After EVERY write (implementation only, no m
 
 Correspondence (`mxdriver codec`, op `saves`): the Lean model `Kernels/SaveFiles.lean` of
 `serialize.write_model` at the level of file NAMES (`_increment_backups`, the in-place directory writer,
-the build-aside-and-move archive writer) is given the same sequence (format, max_backups, names written)
-and must predict, after every write, every slot with every entry and the write that produced its content.
+the build-aside-and-move archive writer) is given the sequence (format, max_backups, names this write
+produces in a fresh path) and must predict, after every write, which slots exist, their kind, every entry
+name, and for every entry the write whose content it holds (checked against that write's reference bytes).
 
 Generation is ONLINE but pure: `plan_history` builds the model, looks at its description, draws edits
 from what exists (inputs to withdraw, ItemSpaces to clear, objects to delete ...), applies them to a
@@ -847,7 +848,6 @@ def plan_history(rng, prog, nsteps, plan=None, wopts=None):
                     break
         w = wopts[k] if wopts is not None and k < len(wopts) and wopts[k] is not None else gen_wopts(rng)
         steps.append({"edits": edits, "write": w})
-    cfg = dict(prog.get("cfg", {}))
     cfg = {"target": rng.choice(["model", "model.zip", "m.d"])}
     close_all()
     return {"ops": pl.ops, "cfg": cfg, "steps": steps}
@@ -1022,11 +1022,11 @@ def programs(ctx):
             p = pair_history(rng, pair, w1, w2)
             if p is not None:
                 yield ("hist-pair:%s>%s:%d" % ("+".join(pair[0]), "+".join(pair[1]), ci), p)
-    for i in range(ctx.n(3, 40)):
+    for i in range(ctx.n(3, 30)):
         p = rotation_history(ctx.rng("hist-rotation", i))
         if p is not None:
             yield ("hist-rotation:%d" % i, p)
-    for i in range(ctx.n(14, 400)):
+    for i in range(ctx.n(14, 250)):
         rng = ctx.rng("hist-random", i)
         prog = base.gen_program(rng, "small" if i % 3 else "normal")
         p = plan_history(rng, prog, rng.choice([2, 3, 3, 4, 5]))
